@@ -85,6 +85,8 @@ pub struct Exec {
     last_tip: (packed::Byte32, BigUint),
     /// C20: the tip at the last tip change the dropped-ids oracle has seen
     view_tip: packed::Byte32,
+    /// C10: the largest freezer number any pass of this process was entitled to reach (0 = not yet known)
+    frozen_bound: u64,
     snaps: Vec<Arc<Snapshot>>,
     /// what each captured snapshot answered, at capture, to by-hash queries for every scenario block
     snap_answers: Vec<Vec<(String, u64)>>,
@@ -224,6 +226,7 @@ impl Exec {
             now,
             last_tip,
             view_tip: view_tip0,
+            frozen_bound: 0,
             snaps: Vec::new(),
             snap_answers: Vec::new(),
             snap_raw: Vec::new(),
@@ -373,20 +376,22 @@ impl Exec {
         }
         let chain = self.w.st(ti).chain.clone();
         let cur_epoch = self.w.st(ti).epoch.number;
-        // threshold: the last block of epoch (current - 2); nothing at or above it may be frozen
-        if frozen > 1 {
-            if cur_epoch <= 2 {
-                self.viol("C10", "frozen_before_third_epoch", format!("{why}: freezer number {frozen} at epoch {cur_epoch}"));
+        // threshold: the last block of epoch (current - 2) AT THE TIME OF A PASS; nothing at or above it
+        // may be moved. The bound is kept as the largest one any pass has had: a later reorganisation may
+        // put the tip into a lower epoch than the one blocks were rightly frozen under. What a previous
+        // process froze was checked there.
+        if why.starts_with("after_freeze") {
+            let cur_bound = if cur_epoch <= 2 {
+                1
             } else {
-                let limit = chain
-                    .iter()
-                    .map(|i| &self.w.blocks[*i])
-                    .filter(|b| b.epoch.number == cur_epoch - 2)
-                    .map(|b| b.number)
-                    .max()
-                    .unwrap_or(0);
-                if frozen > limit {
-                    self.viol("C10", "frozen_beyond_threshold", format!("{why}: freezer number {frozen} but the last block of epoch {} is {limit}", cur_epoch - 2));
+                chain.iter().map(|i| &self.w.blocks[*i]).filter(|b| b.epoch.number == cur_epoch - 2).map(|b| b.number).max().unwrap_or(0)
+            };
+            self.frozen_bound = self.frozen_bound.max(cur_bound);
+            if frozen > self.frozen_bound {
+                if cur_epoch <= 2 {
+                    self.viol("C10", "frozen_before_third_epoch", format!("{why}: freezer number {frozen} at epoch {cur_epoch} (largest bound of any pass so far {})", self.frozen_bound));
+                } else {
+                    self.viol("C10", "frozen_beyond_threshold", format!("{why}: freezer number {frozen} but the last block of epoch {} is {cur_bound} (largest bound of any pass so far {})", cur_epoch - 2, self.frozen_bound));
                 }
             }
         }
@@ -877,6 +882,10 @@ impl Exec {
                         self.res.probes.inc("freeze_with_blocks_in_flight");
                     }
                     let before = self.node.shared.store().freezer().map(|f| f.number()).unwrap_or(1);
+                    if self.frozen_bound == 0 {
+                        // what earlier processes froze was checked there
+                        self.frozen_bound = before.max(1);
+                    }
                     *PASS_SIZES.lock().unwrap() = ancient_sizes(&self.dir);
                     let w0 = {
                         use std::sync::atomic::Ordering::SeqCst;
